@@ -1063,3 +1063,24 @@ func VH_C09_config_shapes() {
 	verifQuiesce()
 	verifReach("C09.shapes.done", true)
 }
+
+// C09: one address carries the TCP listener of one service and the UDP listener of another (the
+// configuration allows an address once per listener type): each listener serves the keys of the
+// service that configures it, not those of the other service on the same address
+func VH_C09_address_shared_across_protocols() {
+	sm := &verifSvcMetrics{}
+	s := verifNewServer(sm)
+	a := verifSvc([]verifLn{verifL1T, verifL2U}, verifKC("a-1", verifKeys[0]))
+	b := verifSvc([]verifLn{verifL2T, verifL1U}, verifKC("b-1", verifKeys[1]))
+	var cfg Config
+	if verifFlag("b-first") {
+		cfg.Services = []ServiceConfig{b, a}
+	} else {
+		cfg.Services = []ServiceConfig{a, b}
+	}
+	verifAssert("C09.cross-protocol.load-ok", verifLoadCfg(s, &verifCfgStep{cfg: cfg}) == nil)
+	verifCheckState("C09.cross-protocol", sm, &cfg, []verifLn{verifL1T, verifL1U, verifL2T, verifL2U}, verifKeys)
+	verifAssert("C09.cross-protocol.stop-ok", s.Stop() == nil)
+	verifQuiesce()
+	verifReach("C09.cross-protocol.done", true)
+}
